@@ -29,6 +29,7 @@ type C14Case struct {
 	ErrKind int        `json:"err_kind"`
 	Short   int        `json:"short"`
 	OnlyK   int        `json:"only_k,omitempty"` // replay: check just this k (0 = all)
+	WS      bool       `json:"ws,omitempty"`     // the destination also implements io.StringWriter (bufio.Writer, bytes.Buffer, os.File do)
 	Tail    []gen.Op   `json:"tail,omitempty"`   // further calls issued only in the runs with a fault (after Ops, i.e. also after a failed Close): all must fail
 }
 
@@ -134,6 +135,7 @@ func drawC14(t *rapid.T) C14Case {
 	}
 	c.Data = gen.DrawRecipeN(t, total)
 	c.ErrKind = rapid.IntRange(0, 7).Draw(t, "errkind")
+	c.WS = rapid.IntRange(0, 2).Draw(t, "ws") == 0
 	for i, n := 0, rapid.IntRange(0, 4).Draw(t, "ntail"); i < n; i++ {
 		// calls after the last regular one (a Close): in a run with a fault that Close has failed
 		c.Tail = append(c.Tail, rapid.SampledFrom([]gen.Op{{K: "W", N: 0}, {K: "W", N: 7}, {K: "F"}, {K: "C"}, {K: "C"}}).Draw(t, "tailop"))
@@ -169,7 +171,11 @@ func drawC14(t *rapid.T) C14Case {
 // run one fault position; k == 0 means no fault.
 func c14Run(c C14Case, data []byte, k int, ferr error) (res []OpResult, sink *iox.Sink, guard func() error, w anyWriter, err error) {
 	sink = &iox.Sink{FailAt: k, FailErr: ferr, Short: c.Short}
-	w, err = newAnyWriter(sink, c.Set)
+	var dst io.Writer = sink
+	if c.WS {
+		dst = iox.StringSink{Sink: sink}
+	}
+	w, err = newAnyWriter(dst, c.Set)
 	if err != nil {
 		return nil, nil, nil, nil, err
 	}
